@@ -77,7 +77,7 @@ def cases(ctx):
             yield {"op": "remove_unloaded", "c": q, "inputs": inputs, "src": "DAG5"}
     for j in range(150 if ctx.quick else 3000):
         r = ctx.rng("C16g3", j)
-        c = gen.rand_circuit(r, n_in=r.randint(1, 4), n_gates=r.randint(2, 9), max_fanin=3, out_is_input=0.3)
+        c = gen.rand_circuit(r, n_in=r.randint(1, 4), n_gates=r.randint(2, 9), max_fanin=3, out_is_input=0.3, loaded_in_out=0.15)
         bb = r.random() < 0.4
         if bb:
             gen.add_flops(r, c, 1)
